@@ -320,7 +320,8 @@ class SchemaLoaderWiki(SchemaLoader):
             str: The tag name.
 
         """
-        if row.find(extend_here_line) != -1:
+        # The marker is only meaningful in the name part of the line, not inside attributes or the description.
+        if re.split(r'[\[{]', row, maxsplit=1)[0].find(extend_here_line) != -1:
             return '', 0
         for invalid_chars in invalid_characters_to_strip:
             row = row.replace(invalid_chars, "")
